@@ -171,6 +171,13 @@ def gen_cases(spec, ctx):
             c = families.gen_case(r, "file")
             x = r.random()
             c["what"] = "file:related"
+            if "va" in c:
+                c["what"] = "file:yaml-stream-with-empty-documents"
+                if not (isinstance(c["a"], list) and isinstance(c["b"], list)):
+                    continue
+                c["cli"] = True
+                yield c
+                continue
             if x < 0.25:
                 c["b"] = gen.permute_keys(r, copy.deepcopy(c["a"]))
                 c["what"] = "file:equal-permuted"
@@ -222,8 +229,8 @@ def write_files(case):
         return (families.tmpfile(json.dumps(case["a"]).encode(), ".json"), families.tmpfile(json.dumps(case["b"]).encode(), ".json"))
     if fam == "file":
         from gv import formats
-        return (families.tmpfile(formats.write(case["ta"], case["a"]), formats.EXT[case["ta"]]),
-                families.tmpfile(formats.write(case["tb"], case["b"]), formats.EXT[case["tb"]]))
+        return (families.tmpfile(formats.write(case["ta"], case["a"], variant=case.get("va")), formats.EXT[case["ta"]]),
+                families.tmpfile(formats.write(case["tb"], case["b"], variant=case.get("vb")), formats.EXT[case["tb"]]))
     if fam == "xml":
         return (families.tmpfile(families.xml_text(case["a"]).encode(), ".xml"), families.tmpfile(families.xml_text(case["b"]).encode(), ".xml"))
     if fam == "csv":
